@@ -102,6 +102,30 @@ namespace TrRouting
                 continue;
               }
 
+              // Time never goes backwards along a trip: every departure used by a connection is a clock time (>= 0), a vehicle
+              // reaches the next stop no earlier than it left the previous one and leaves a stop no earlier than it reached it.
+              // (The arrival at the first stop and the departure from the last one are not used and may be -1.)
+              bool stopTimesInOrder = true;
+              {
+                const auto checkedArrivalTimes   = capnpTrip.getNodeArrivalTimesSeconds();
+                const auto checkedDepartureTimes = capnpTrip.getNodeDepartureTimesSeconds();
+                for (unsigned long nodeTimeI = 0; nodeTimeI + 1 < nodeTimesCount; nodeTimeI++)
+                {
+                  if (checkedDepartureTimes[nodeTimeI] < 0 ||
+                      checkedArrivalTimes[nodeTimeI + 1] < checkedDepartureTimes[nodeTimeI] ||
+                      (nodeTimeI > 0 && checkedDepartureTimes[nodeTimeI] < checkedArrivalTimes[nodeTimeI]))
+                  {
+                    stopTimesInOrder = false;
+                    break;
+                  }
+                }
+              }
+              if (!stopTimesInOrder)
+              {
+                spdlog::error("Stop times of trip {} on path {} go backwards, ignoring the trip", tripUuidStr, pathUuidStr);
+                continue;
+              }
+
               trips.emplace(tripUuid, Trip(tripUuid,
                                            line.agency,
                                            line,
